@@ -236,6 +236,29 @@ func hSetRequest(r *fw.Rng) *gnmi.SetRequest {
 }
 
 func hGetRequest(r *fw.Rng) *gnmi.GetRequest {
+	if r.Chance(1, 3) {
+		// nearly valid: the shapes real clients send - path only, prefix + path, prefix only, whole target
+		tg := []string{"t1", "t2", "t1"}[r.Intn(3)]
+		paths := []string{"/foo", "/a", "/a/b", "/c", "/c/l[k=x]", "/c/l[k=*]/v", "/c/l", "/nosuch", "/state/counter"}
+		req := &gnmi.GetRequest{Encoding: []gnmi.Encoding{gnmi.Encoding_PROTO, gnmi.Encoding_JSON_IETF, gnmi.Encoding_JSON, gnmi.Encoding_PROTO}[r.Intn(4)]}
+		switch r.Intn(5) {
+		case 0:
+			req.Path = []*gnmi.Path{refmodel.MustParse(paths[r.Intn(len(paths))]).ToGNMI(tg)}
+		case 1:
+			req.Prefix = &gnmi.Path{Target: tg}
+			req.Path = []*gnmi.Path{refmodel.MustParse(paths[r.Intn(len(paths))]).ToGNMI("")}
+		case 2:
+			req.Prefix = &gnmi.Path{Target: tg} // prefix only, no path at all
+		case 3:
+			req.Prefix = refmodel.MustParse([]string{"/a", "/c", "/c/l[k=x]"}[r.Intn(3)]).ToGNMI(tg) // prefix with elems only
+		case 4:
+			req.Path = []*gnmi.Path{{Target: tg}}
+		}
+		if r.Chance(1, 6) {
+			req.Extension = hExtensions(r)
+		}
+		return req
+	}
 	req := &gnmi.GetRequest{Extension: hExtensions(r)}
 	if r.Chance(1, 2) {
 		req.Prefix = hPath(r)
